@@ -58,7 +58,10 @@ pub fn c02(seed: u64, budget: u64, with_model: bool) -> FOut {
     let mut steps = 0u64;
     let mut mismatches: Vec<String> = vec![];
     for _run in 0..budget {
-        let n = 2 + g.below(7) as usize;
+        // one run in eight is a long one on a small cluster: more than 256 probe rounds per instance,
+        // so that the u8 probe number and everything else that only shows after many rounds is covered
+        let long_run = g.chance(12);
+        let n = if long_run { 2 + g.below(2) as usize } else { 2 + g.below(7) as usize };
         let mut cfg = cluster_cfg(&mut g, n);
         let small_packets = g.chance(15);
         if small_packets {
@@ -91,7 +94,8 @@ pub fn c02(seed: u64, budget: u64, with_model: bool) -> FOut {
         let bound = join_end + (4 * n as u128 + 8) * P + freq;
         let mut discovered_at: Option<u128> = None;
         let mut t = 0;
-        while t < bound + 4 * P {
+        let run_for = if long_run { bound + 270 * P } else { bound + 4 * P };
+        while t < run_for {
             t += P / 4;
             sim.run_until(t);
             if discovered_at.is_none() && sim.fully_connected() {
@@ -295,15 +299,17 @@ pub fn c04(seed: u64, budget: u64) -> FOut {
 /// C05: auto-rejoin after a healed partition
 pub fn c05(seed: u64, budget: u64) -> FOut {
     let mut out = FOut::default();
-    out.rule = "clusters of n = 3..7 real instances with renewable identities, notify_down_members and periodic_announce_to_down_members; every two-sided split shape (random sides), partition held until both sides declared each other Down (checked), heal at a random instant; also the asymmetric case (one live member falsely declared Down through a forged suspicion timeout); monitors: every instance told it is down reports Rejoin (never Defunct) with an identity that wins against the previous one and Active afterwards; within 6n+10 announce-to-down periods every live instance lists every other under its current identity, provided one side kept >= 2 members. distinct = distinct (n, split, config)".into();
+    out.rule = "clusters of n = 3..7 real instances with renewable identities, notify_down_members and periodic_announce_to_down_members; every two-sided split shape (random sides), partition held until both sides declared each other Down (checked), heal at a random instant; in a quarter of the runs a second outage of the same nodes timed so that the forget-timers of the first outage fire while the second partition is on; also the asymmetric case (one live member falsely declared Down through a forged suspicion timeout); monitors: every instance told it is down reports Rejoin (never Defunct) with an identity that wins against the previous one and Active afterwards; within 6n+10 announce-to-down periods every live instance lists every other under its current identity, provided one side kept >= 2 members. distinct = distinct (n, split, config)".into();
     let mut g = G::new(seed ^ 0xC05);
+    let mut second_outages = 0u64;
     for _run in 0..budget {
         let n = 3 + g.below(5) as usize;
         let mut cfg = cluster_cfg(&mut g, n);
         cfg.max_packet_size = 1400;
         cfg.notify_down_members = true;
         cfg.periodic_announce_down = Some((4 * P + g.below(2000) as u128 * MS, 1 + g.below(3) as u128));
-        cfg.remove_down_after = 400 * P;
+        let two_cycles = g.chance(25);
+        cfg.remove_down_after = if two_cycles { 150 * P } else { 400 * P };
         let aligned = g.chance(20);
         let mut sim = if aligned {
             let mut s0 = Sim::new(n, &cfg, g.next(), 1, false);
@@ -352,23 +358,50 @@ pub fn c05(seed: u64, budget: u64) -> FOut {
             nd.notes.clear();
             nd.errors.clear();
         }
-        let heal = sim.now + g.below(3000) as u128 * MS;
+        let mut heal = sim.now + g.below(3000) as u128 * MS;
         sim.run_until(heal);
         let freq = cfg.periodic_announce_down.unwrap().0;
-        let bound = heal + (6 * n as u128 + 10) * freq;
-        let mut converged_at = None;
-        let mut t = heal;
-        while t < bound {
-            t += freq / 2;
-            sim.run_until(t);
-            if sim.fully_connected() {
-                converged_at = Some(sim.now);
-                break;
+        let mut converge = |sim: &mut Sim, heal: u128| -> Option<u128> {
+            let bound = heal + (6 * n as u128 + 10) * freq;
+            let mut t = heal;
+            while t < bound {
+                t += freq / 2;
+                sim.run_until(t);
+                if sim.fully_connected() {
+                    return Some(sim.now);
+                }
+            }
+            None
+        };
+        let mut converged_at = converge(&mut sim, heal);
+        // a second outage of the same nodes, timed so that the forget-timers of the first one fire
+        // while the second partition is on (the Down records then belong to the renewed identities)
+        let mut second_cycle = false;
+        if two_cycles && !asym && converged_at.is_some() {
+            let due = sim.pending_remove_down_times();
+            let declared_after = (2 * n as u128 + 2) * P + cfg.suspect_to_down_after + 2 * P;
+            if let (Some(first), Some(last)) = (due.iter().min(), due.iter().max()) {
+                if *first > sim.now + declared_after + 2 * P {
+                    second_cycle = true;
+                    second_outages += 1;
+                    let t_cut2 = *first - declared_after;
+                    sim.run_until(t_cut2);
+                    sim.cut = Some(side_a.clone());
+                    sim.run_until(*last + 2 * P);
+                    sim.cut = None;
+                    for nd in sim.nodes.iter_mut() {
+                        nd.notes.clear();
+                        nd.errors.clear();
+                    }
+                    heal = sim.now + g.below(3000) as u128 * MS;
+                    sim.run_until(heal);
+                    converged_at = converge(&mut sim, heal);
+                }
             }
         }
         out.runs += 1;
         out.distinct.insert(hash_of(&(n, side_a.clone(), asym, format!("{cfg:?}"))));
-        let ctx = format!("n={n} side_a={side_a:?} asym={asym} aligned_timers={aligned} cfg={cfg:?}");
+        let ctx = format!("n={n} side_a={side_a:?} asym={asym} aligned_timers={aligned} second_outage={second_cycle} cfg={cfg:?}");
         for i in 0..n {
             let mut last_rejoin: Option<VId> = None;
             for (t, nn) in &sim.nodes[i].notes {
@@ -399,6 +432,7 @@ pub fn c05(seed: u64, budget: u64) -> FOut {
             out.samples.push(J::s(format!("{ctx}: converged at {:?} ms after heal at {} ms", converged_at.map(|x| x / MS), heal / MS)));
         }
     }
+    out.extra.push(("runs_with_second_outage".into(), J::n(second_outages)));
     out
 }
 
